@@ -114,6 +114,43 @@ fn one_c07(cx: &mut Ctx, coding: &[u8], arrivals: &[usize], caps: &mut dyn FnMut
 
 pub fn c07(cx: &mut Ctx) {
     let mut r0 = Rng::for_case(cx.seed, 999_999);
+    // the chunked body is that of a response refusing an Expect: 100-continue request (seen while awaiting, whole
+    // or only its start, or after the caller gave up and sent the body)
+    for route in 0..3 {
+        for (coding, payload) in [("5\r\nhello\r\n3\r\nabc\r\n0\r\n\r\n", "helloabc"), ("1;x=y\r\nZ\r\n0\r\nT: v\r\n\r\n", "Z")] {
+            for cap in [1usize, 3, 1000] {
+                cx.case("refusedbody");
+                cx.rec.new_flow(&format!("POST HTTP/1.1 http://a.test/p {}", super::hdrs(&[("expect", b"100-continue"), ("content-length", b"3")])));
+                cx.op("proceed"); cx.op("write 4096"); cx.op("proceed");
+                if cx.rec.state() != "await100" { continue; }
+                let head: &[u8] = b"HTTP/1.1 417 Expectation Failed\r\nTransfer-Encoding: chunked\r\n\r\n";
+                if route == 0 { cx.op(&format!("read100 {}", hx(head))); }
+                if route == 1 { cx.op(&format!("read100 {}", hx(&head[..40]))); }
+                cx.op("proceed");
+                if cx.rec.state() == "sendBody" { cx.op("bwrite 616263 100"); cx.op("proceed"); }
+                if cx.rec.state() != "recvResponse" { continue; }
+                cx.op(&format!("resp {}", hx(head)));
+                cx.op("proceed");
+                if cx.rec.state() != "recvBody" { continue; }
+                let _ = payload;
+                cx.meta(&format!("body-stream {}", hx(coding.as_bytes())));
+                let mut stream = coding.as_bytes().to_vec();
+                stream.extend_from_slice(NEXT);
+                let mut off = 0usize;
+                for _ in 0..40 {
+                    let res = cx.op(&format!("bread {} {}", hx(&stream[off..]), cap));
+                    let p: Vec<&str> = res.split(' ').collect();
+                    if p[0] != "bytes" { break; }
+                    let i: usize = p[1].parse().unwrap_or(0);
+                    off += i;
+                    if i == 0 && p[2] == "-" { break; }
+                }
+                cx.meta(&format!("consumed {}", off));
+                cx.op("canproceed");
+                cx.op("proceed");
+            }
+        }
+    }
     // exhaustive small scope: <=2 chunks of sizes {1,2,3}, styles, 0..2 trailers; all single and double cuts
     let small_sizes: Vec<Vec<usize>> = vec![vec![], vec![1], vec![2], vec![3], vec![1, 2], vec![3, 1], vec![2, 2, 1]];
     for sizes in &small_sizes {
